@@ -249,9 +249,25 @@ def run(chk, repo: Repo):
         if isinstance(par, ast.Assign) and isinstance(par.targets[0], ast.Name):
             col = par.targets[0].id
             uses = [st for st in between if st is not par and col in {x.id for x in ast.walk(st) if isinstance(x, ast.Name)}]
+            # the stored column IS forward(e_i): the local holding it is not re-bound or written before it is stored (a thresholding / rounding step
+            # `col = np.where(abs(col) > 1e-12, col, 0)` makes the matrix differ from the map for legitimately small entries)
+            rebinds = [st for st in lp.body for t_ in ast.walk(st) if st is not par and isinstance(t_, ast.Name) and t_.id == col and isinstance(t_.ctx, ast.Store)] + \
+                      [st for st in lp.body if isinstance(st, (ast.Assign, ast.AugAssign)) and any(
+                          isinstance(t_, ast.Subscript) and path_of(t_.value) == col for t_ in (st.targets if isinstance(st, ast.Assign) else [st.target]))]
+            if rebinds:
+                problems.append(f"the column `{col}` = forward(e) is changed before it is stored (`{unparse(rebinds[0])[:70]}`): the assembled matrix is no longer "
+                                f"the matrix of the forward map")
             for st in uses:
                 if isinstance(st, ast.Assign) and isinstance(st.value, ast.Call) and call_name(st.value) in COPYING:
                     consumed = "copy"
+                    # what is appended is the column itself (as a column): col[:, None] / col.reshape(-1, 1) / col - not a function of it
+                    a0 = st.value.args[0] if st.value.args else None
+                    parts = list(a0.elts) if isinstance(a0, (ast.Tuple, ast.List)) else []
+                    new_cols = [x for x in parts if _norm(x) != path_of(st.targets[0])]
+                    okf = {f"{col}[:,None]", f"{col}", f"{col}.reshape(-1,1)", f"{col}.reshape((-1,1))", f"{col}[:,np.newaxis]"}
+                    if parts and any(_norm(x) not in okf for x in new_cols):
+                        problems.append(f"the column appended is `{unparse(new_cols[0])[:70]}`, a function of forward(e) (thresholded / rounded / scaled), not forward(e) "
+                                        f"itself: the assembled matrix is no longer the matrix of the forward map (legitimately small entries vanish)")
                     if not ((f"{col}[:,None]" in _norm(st.value) or f"{col}" in _norm(st.value)) and _norm(st.value).split("((")[-1].split(",")[0] == path_of(st.targets[0])):
                         problems.append("new column is not appended on the right of the accumulated matrix (column order)")
                 elif isinstance(st, ast.Assign) and isinstance(st.targets[0], ast.Subscript) and _norm(st.targets[0].slice) in (f"(slice(None,None,None),{i})", f":,{i}", f"(:,{i})"):
